@@ -79,8 +79,29 @@ def enforced_changes_vs_keep(rng):
     return dict(sequence=seq, constraints=[], objectives=objs, settings=problems.rand_settings(rng), np_seed=rng.randint(0, 10 ** 6))
 
 
+def region_gc_vs_flank(rng):
+    """a windowed GC objective restricted to a region that starts well after position 0, next to a flank whose GC
+    content is the opposite extreme; only a few nucleotides at the region's left edge are free"""
+    from gen import hard
+    n = rng.randint(24, 44)
+    w = rng.choice([5, 8, 10])
+    a = rng.randint(w, n - w - 4)
+    b = n if rng.random() < 0.6 else rng.randint(a + w + 2, n)
+    flank = rng.choice(["GC", "AT"])
+    seq = "".join(rng.choice(flank) for _ in range(a)) + "".join(rng.choice("AATTGC" if flank == "GC" else "GGCCAT") for _ in range(n - a))
+    free = rng.randint(2, 5)
+    cons = [dict(kind="keep", location=[0, a, 0])]
+    if a + free < n:
+        cons.append(dict(kind="keep", location=[a + free, n, 0]))
+    objs = [dict(kind="gc_obj", target=rng.choice([0.4, 0.5, 0.6]), window=w, location=[a, b, rng.choice([1, 0])], boost=rng.choice([1, 2]))]
+    return dict(sequence=seq, constraints=cons, objectives=objs, settings=problems.rand_settings(rng), np_seed=rng.randint(0, 10 ** 6))
+
+
 def gen_cases(rng, n):
     for i in range(n):
+        if i % 9 == 2:
+            yield dict(desc=region_gc_vs_flank(rng), op="optimize", pre_ops=() if i % 2 else ("optimize",))
+            continue
         if i % 7 == 5:
             yield dict(desc=enforced_changes_vs_keep(rng), op="optimize", pre_ops=("optimize",))
             continue
